@@ -124,9 +124,20 @@ def vecn_batch(n, R, vi, seed=None, tag=(), n_int=2):
 # ---------------------------------------------------------------------------
 # library objects
 # ---------------------------------------------------------------------------
-def mk_measure(kind, Lam, nu, lnb):
+MEASURE_MODES = ["Lambda", "Lambda+Sigma", "Lambda+Sigma+ldL", "Lambda+Sigma+ldS", "all", "Lambda+ldL"]
+
+
+def mk_measure(kind, Lam, nu, lnb, mode="Lambda"):
+    """mode: which of the optional constructor arguments (Sigma, ln_det_Lambda, ln_det_Sigma) are given next to Lambda."""
     cls = {"GaussianMeasure": measure.GaussianMeasure, "GaussianDiagMeasure": measure.GaussianDiagMeasure}[kind]
-    return cls(Lambda=J(Lam), nu=J(nu), ln_beta=J(lnb))
+    kw = {}
+    if "Sigma" in mode or mode == "all":
+        kw["Sigma"] = J(np.linalg.inv(Lam))
+    if "ldL" in mode or mode == "all":
+        kw["ln_det_Lambda"] = J(np.linalg.slogdet(Lam)[1])
+    if "ldS" in mode or mode == "all":
+        kw["ln_det_Sigma"] = J(-np.linalg.slogdet(Lam)[1])
+    return cls(Lambda=J(Lam), nu=J(nu), ln_beta=J(lnb), **kw)
 
 
 def mk_pdf(kind, Sigma, mu, mode="Sigma"):
